@@ -14,7 +14,15 @@ semantic error) and every option set:
      type descriptor as a Gallina term; Gen_Descr_<n>.v states `wf_descr_all tab = true`
      and coqc decides it by vm_compute on every run.
 (a) and (b) are observations about two C programs (evidence of the exploration
-kind); (c) is a checked obligation."""
+kind); (c) is a checked obligation.
+Round 2 (lib/c10_regions.py: parameterized types, multi-module inputs given as several files in every order,
+one module per grammar rule group; coq/Fix/ParamSpec.v, coq/Fix/FileSet.v):
+ (d) the emitted file set is self-contained (nothing written twice, every #include and every makefile source exists,
+     no skeleton name taken) - oracle on the C output alone, every accepted module;
+ (e) the per-type file stems asn1c reports (`Compiled X.c`, in order) = FileSet.file_stems of the extracted model;
+ (f) the specialization index of every flat instantiation site (read from the generated header) =
+     ParamSpec.spec_indices of the model; and, on the C output alone, references with different actual parameter
+     lists must not share a C type (false on the unchanged tree: finding C10-param-actuals-compared-shallowly)."""
 import sys, os, re, json, time
 sys.path.insert(0, os.path.join(os.path.dirname(os.path.abspath(__file__)), "..", "lib"))
 from vlib import *
